@@ -5,7 +5,7 @@ import re
 from ..core import sym
 from ..core.expand import u, call_name, get_arg, bind_args, Expander, is_marker, phi_alternatives
 from ..core.loader import Inconclusive, const_value, parents
-from .common import (returns, all_nodes, callee, strip_shape, calls_in, guards_of, stmt_of, kw, find_assignments,
+from .common import (read_tables, returns, all_nodes, callee, strip_shape, calls_in, guards_of, stmt_of, kw, find_assignments,
                      dict_literal_items, in_loop)
 
 EXPLANATION = (
@@ -35,6 +35,12 @@ def _factory(P, f):
     """{key: canonical class} from a dict literal / dict comprehension over a tuple of classes; also the lookup style"""
     ex = Expander(P, f)
     fac = None
+    for nm, (its, node) in read_tables(P, f).items():
+        items = {k: P.canon(f, v) for k, v in its.items() if not isinstance(v, ast.Constant) and P.canon(f, v) in P.classes}
+        if len(items) >= 2:
+            fac = (nm, items, node)
+    if fac is not None:
+        return fac
     for n in all_nodes(f):
         if isinstance(n, ast.Assign) and isinstance(n.targets[0], ast.Name):
             v = n.value
@@ -209,7 +215,7 @@ def rule_json(ck):
     txt = ' '.join(u(s) for s in w.node.body)
     ex = Expander(P, w)
     saves = [n for n in all_nodes(w) if isinstance(n, ast.Call) and isinstance(n.func, ast.Attribute) and n.func.attr == 'save']
-    good = len(saves) == 1 and u(saves[0].args[0]) == '%s.to_dict()' % w.positional_params[0] and \
+    good = len(saves) == 1 and kw(saves[0], 'data', 0) is not None and u(kw(saves[0], 'data', 0)) == '%s.to_dict()' % w.positional_params[0] and \
         re.search(r'FileSystem\((url=)?%s\)' % re.escape(w.positional_params[1]), u(ex.expand(saves[0].func.value))) is not None
     (o.ok() if good else o.fail('write_json does not save object.to_dict() through FileSystem(url=fname)'))
     s = P.func('csep.core.repositories.FileSystem.save')
